@@ -344,6 +344,22 @@ def run(project, chk):
                       how=f"guards: {sorted(t for t, v in lits if recv in t)}",
                       message=f"`{norm_text(x)}` executes only when {recv} is NOT valid: a valid re-read result (e.g. an hsl() string) reaches the preview unrendered and rich raises ColorParseError -- show=True raises where the plain call returns")
 
+    # ---------------------------------------------------------------- R11: no result is chosen by the flags
+    chk.rule("R11", "no return statement of make_readable / make_readable_bulk is reachable only under a particular value of show / save_report "
+                    "(a fast path for 'nothing to draw' makes the plain call and the previewed call return different things)")
+    for q11 in (MAKE, BULK):
+        f11 = project.func(q11)
+        c11 = build_cfg(f11.node)
+        G11 = _gs(c11)
+        for n11 in c11.nodes:
+            if n11.kind != "return":
+                continue
+            lits = _cl(G11.get(n11.id))
+            dep = sorted(t for (t, v) in lits if any(w in ("show", "save_report") for w in t.replace("(", " ").replace(")", " ").replace(",", " ").split()))
+            chk.check(not dep, "R11", f11.short, norm_text(n11.ast)[:80], project.loc(f11.module, n11.ast), "the return is reached whatever show / save_report are",
+                      how=f"guards on every path: {sorted(t for t, v in lits)[:6]}",
+                      message=f"`{norm_text(n11.ast)[:60]}` is reached only when `{dep[0] if dep else ''}` has a particular value: with show / save_report the call returns something else than without")
+
     # ---------------------------------------------------------------- R10: the bulk report formats parsed colours, not the caller's raw values
     chk.rule("R10", "inside the save_report region of make_readable_bulk a validating converter (core.conversions.*) is only ever given a parsed colour (a Color's rgb / the returned colour), "
                     "never the caller's raw entry: raw tuples in other accepted spellings (hsl tuples, strings) make it raise, so asking for the report would change the outcome")
